@@ -129,7 +129,7 @@ def check(rep, an, tier):
                     F.qty(rep, res, entry, subs=("mismatch", "centre", "frame-ratio"))
                     R.rule_type_errors(rep, res, "SHAPE", "R-SHAPE", entry)
                     R.rule_purity(rep, res, entry)
-                    R.rule_effect_free(rep, res, entry)
+                    R.rule_effect_free(rep, res, entry, reg=_reg(an))
                     R.rule_dtype(rep, res, entry)
                     R.rule_block_cover(rep, res, entry)
                     CC.membership_frames(rep, res, entry)
@@ -188,3 +188,8 @@ def dist_structure(rep, res, entry, Fax):
         L1 = ev.d["args"][1] if len(ev.d["args"]) > 1 else ev.d["kws"].get("L1")
         rep.check("R-FLOW", "re-expansion uses the targets' own totals", L1 is not None and "B" in L1.flat().data, where=ev.loc,
                   construct=ev.text(), entry=entry, config=res.config)
+
+
+def _reg(an):
+    from .C14 import registration_writes
+    return registration_writes(an)
